@@ -336,21 +336,39 @@ theorem onNextNodeIdx_refines (s : NodeState) (frm t next now : Nat) (reset : Bo
   · rw [h1, habs, a1]
   · rw [h3, a2, List.append_nil]
 
-/-! ## 6. the send loop ⊑ `sendAppend` -/
+/-! ## 6. the send loop ⊑ `sendAppend` (pipelined, probing, cut) -/
 
-/-- **`sendRun_refines`** = `sendRun_batches_refine` (`BridgeSend.lean`): every batch of a full send run is an
+/-- **`sendRun_refines`** = `sendRun_batches_refine` (`BridgeSend.lean`): every batch of a full PIPELINED send run
+(destination has confirmed the entry before `nextIndex`: `matchIndex = m ≥ first + p − 1`, repair D62) is an
 enabled `sendAppend n d prev k (commit − 1)` creating exactly the batch's model message; a chunk burst is ONE
 `sendAppend … 1`; the wire messages read through `absMsgS` are these messages in order. -/
 theorem sendRun_refines {first : Nat} {log : List NodeSend.Entry} {p B : Nat} (wf : C11.WF first log p B)
-    (term commit : Nat) (snap : List (Option Bool)) (ghost : List Raft.Entry) (hgh : ghost.length + 1 = first)
+    (term commit : Nat) (snap : List (Option Bool)) (m : Nat) (hm : first + p - 1 ≤ m)
+    (ghost : List Raft.Entry) (hgh : ghost.length + 1 = first)
     (N n d : Nat) (hn : n < N) (hd : d ≠ n) :
-    ∃ r, NodeSend.sendOne ⟨B, term, commit, none⟩ log (first + p) snap none = .ok r ∧
+    ∃ r, NodeSend.sendOne ⟨B, term, commit, none, some m⟩ log (first + p) snap none = .ok r ∧
       r.msgs.filterMap (absMsgS n d) = r.batches.filterMap (absBatch term commit n d) ∧
       ∀ b ∈ r.batches, ∀ S : Raft.State, (S.nodes n).role = .leader → (S.nodes n).term = term →
         (S.nodes n).log = ghost ++ absLogS log → commit - 1 ≤ (S.nodes n).commit →
         ∃ prev m, prev < (S.nodes n).log.length ∧ absBatch term commit n d b = some m ∧
           Raft.step N S (.sendAppend n d prev b.entries.length (commit - 1)) = some { S with msgs := S.msgs ++ [m] } :=
-  sendRun_batches_refine wf term commit snap ghost hgh N n d hn hd
+  sendRun_batches_refine wf term commit snap m hm ghost hgh N n d hn hd
+
+/-- **`sendRun_probe_refines`** = `sendRun_probe_refine`: a full PROBING run (`matchIndex = m < first + p − 1`) is
+exactly ONE enabled `sendAppend`: one batch `b` = the first byte-budget batch (the empty heartbeat when up to date),
+`nextIndex` right after it, the wire messages read as the one message `absBatch b`. -/
+theorem sendRun_probe_refines {first : Nat} {log : List NodeSend.Entry} {p B : Nat} (wf : C11.WF first log p B)
+    (term commit : Nat) (snap : List (Option Bool)) (m : Nat) (hm : m < first + p - 1)
+    (ghost : List Raft.Entry) (hgh : ghost.length + 1 = first)
+    (N n d : Nat) (hn : n < N) (hd : d ≠ n) :
+    ∃ r b, NodeSend.sendOne ⟨B, term, commit, none, some m⟩ log (first + p) snap none = .ok r ∧
+      r.batches = [b] ∧ b.entries = NodeSend.takeBytes B 0 (log.drop p) ∧ r.next = first + p + b.entries.length ∧
+      r.msgs.filterMap (absMsgS n d) = (absBatch term commit n d b).toList ∧
+      ∀ S : Raft.State, (S.nodes n).role = .leader → (S.nodes n).term = term →
+        (S.nodes n).log = ghost ++ absLogS log → commit - 1 ≤ (S.nodes n).commit →
+        ∃ prev m', prev < (S.nodes n).log.length ∧ absBatch term commit n d b = some m' ∧
+          Raft.step N S (.sendAppend n d prev b.entries.length (commit - 1)) = some { S with msgs := S.msgs ++ [m'] } :=
+  sendRun_probe_refine wf term commit snap m hm ghost hgh N n d hn hd
 
 /-! ## non-vacuity: every theorem above has an instance in which its handler does something -/
 
@@ -500,25 +518,33 @@ theorem exLogS_wf : C11.WF 1 exLogS 1 100 :=
     | n + 3, he => simp [exLogS] at he, by omega, by simp [exLogS], by omega, by
     intro e he; simp [exLogS] at he; rcases he with h | h | h <;> subst h <;> simp⟩
 
-example := sendRun_refines exLogS_wf 1 2 [] [] rfl 3 0 1 (by decide) (by decide)
+example := sendRun_refines exLogS_wf 1 2 [] 1 (by decide) [] rfl 3 0 1 (by decide) (by decide)
 
-example : (match NodeSend.sendOne ⟨100, 1, 2, none⟩ exLogS (1 + 1) [] none with
+example : (match NodeSend.sendOne ⟨100, 1, 2, none, some 1⟩ exLogS (1 + 1) [] none with
     | .ok r => r.batches.filterMap (absBatch 1 2 0 1)
     | .error _ => []) =
     [.append 1 0 1 0 0 [⟨1, 1⟩] 1, .append 1 0 1 1 1 [⟨1, 2⟩] 1] := by decide
 
-example : (match NodeSend.sendOne ⟨100, 1, 2, none⟩ exLogS (1 + 1) [] none with
+example : (match NodeSend.sendOne ⟨100, 1, 2, none, some 1⟩ exLogS (1 + 1) [] none with
     | .ok r => (r.msgs.length, r.msgs.filterMap (absMsgS 0 1))
     | .error _ => (0, [])) =
     (5, [.append 1 0 1 0 0 [⟨1, 1⟩] 1, .append 1 0 1 1 1 [⟨1, 2⟩] 1]) := by decide
 
 /-- 6'. the same run cut by the clock after one iteration and by a disconnect at the second `transport.send`:
 one batch (the chunked entry), two of its four chunks on the wire, still an enabled `sendAppend … 1`. -/
-example := sendRun_cut_refines exLogS_wf 1 2 [] (some 1) (some 2) [] rfl 3 0 1 (by decide) (by decide)
+example := sendRun_cut_refines exLogS_wf 1 2 [] (some 1) (some 2) 1 [] rfl 3 0 1 (by decide) (by decide)
 
-example : (match NodeSend.sendOne ⟨100, 1, 2, some 2⟩ exLogS (1 + 1) [] (some 1) with
+example : (match NodeSend.sendOne ⟨100, 1, 2, some 2, some 1⟩ exLogS (1 + 1) [] (some 1) with
     | .ok r => (r.msgs.length, r.batches.filterMap (absBatch 1 2 0 1))
     | .error _ => (0, [])) = (2, [.append 1 0 1 0 0 [⟨1, 1⟩] 1]) := by decide
+
+/-- 6''. a probing run (the destination has confirmed nothing: `matchIndex = 0 < 1`): exactly one batch — the
+chunked entry — = one model message, although the log holds two unsent entries (D62). -/
+example := sendRun_probe_refines exLogS_wf 1 2 [] 0 (by decide) [] rfl 3 0 1 (by decide) (by decide)
+
+example : (match NodeSend.sendOne ⟨100, 1, 2, none, some 0⟩ exLogS (1 + 1) [] none with
+    | .ok r => (r.next, r.msgs.length, r.msgs.filterMap (absMsgS 0 1))
+    | .error _ => (0, 0, [])) = (3, 4, [.append 1 0 1 0 0 [⟨1, 1⟩] 1]) := by decide
 
 /-- 3'. a single-voter cluster: the election-timeout branch makes the node leader at once (`isMajority 1 1`). -/
 def exSingle : NodeState := { exFollower with others := [], connected := [] }
